@@ -58,6 +58,80 @@ theorem C03_table_delegates :
     Gen.delegates .make_variable_static = [.remove_variable, .add_derived, .add_parameter] := by
   decide
 
+/-- Statement order of every mutator, as read from the source: which id operation, which own container (and
+    how: item assignment / `del` / `pop`), which component writes, which rejecting statements (with the classes
+    they raise), which `_check_*` helpers, which delegated mutators and which subscript loads, in order.  The
+    model's `step` is written after exactly these scripts; any reordering, added or dropped statement in a
+    mutator body makes this obligation fail on the next run. -/
+theorem C03_table_scripts :
+    Gen.Mut.all.map Gen.script =
+    [ [.ins "parameter", .cwrite "_parameters" "set"],
+      [.check "_check_new_ids", .call .add_parameter, .call .add_parameter],
+      [.cwrite "_parameters" "pop", .rem],
+      [.check "_check_known_names", .call .remove_parameter],
+      [.guard "KeyError", .load "_parameters", .write, .write, .write],
+      [.check "_check_known_names", .call .update_parameter, .call .update_parameter],
+      [.call .update_parameter],
+      [.call .update_parameters],
+      [.load "_parameters", .guard "KeyError", .call .remove_parameter, .call .add_variable, .write, .write,
+       .guard "KeyError"],
+      [.ins "variable", .cwrite "_variables" "set"],
+      [.check "_check_new_ids", .call .add_variable, .call .add_variable],
+      [.cwrite "_variables" "del", .rem, .write, .write],
+      [.check "_check_known_names", .call .remove_variable],
+      [.guard "KeyError", .load "_variables", .write, .write, .write],
+      [.check "_check_known_names", .call .update_variable, .call .update_variable],
+      [.load "_variables", .call .remove_variable, .call .add_derived, .call .add_parameter],
+      [.ins "derived", .cwrite "_derived" "set"],
+      [.load "_derived", .write, .write, .write],
+      [.cwrite "_derived" "pop", .rem],
+      [.ins "reaction", .cwrite "_reactions" "set"],
+      [.load "_reactions", .write, .write, .write, .write],
+      [.cwrite "_reactions" "pop", .rem],
+      [.ins "readout", .cwrite "_readouts" "set"],
+      [.cwrite "_readouts" "del", .rem],
+      [.check "_check_new_ids", .ins "surrogate", .write, .write, .write, .ins "surrogate",
+       .cwrite "_surrogates" "set"],
+      [.guard "KeyError", .load "_surrogates", .load "_surrogates", .check "_check_new_ids", .write, .write, .write,
+       .rem, .ins "surrogate", .cwrite "_surrogates" "set"],
+      [.cwrite "_surrogates" "pop", .rem, .rem],
+      [.ins "data", .cwrite "_data" "set"],
+      [.guard "KeyError", .cwrite "_data" "set"],
+      [.cwrite "_data" "pop", .rem] ] := by decide
+
+/-- "validate first": no mutator has a rejecting statement after its first write, except the final
+    `if not target: raise` of `make_parameter_dynamic` (which the model carries as `setStoich`'s failure and
+    `makeParameterDynamic_good` proves unreachable after the up-front check); and every method that the model
+    rejects through a dictionary lookup does subscript its own container before it writes. -/
+theorem C03_table_validate_first :
+    (∀ m, m ≠ Gen.Mut.make_parameter_dynamic → Gen.lateGuards m = 0) ∧
+    Gen.lateGuards .make_parameter_dynamic = 1 ∧
+    Gen.loadsBefore .update_derived = ["_derived"] ∧ Gen.loadsBefore .update_reaction = ["_reactions"] ∧
+    Gen.loadsBefore .make_variable_static = ["_variables"] ∧
+    Gen.loadsBefore .make_parameter_dynamic = ["_parameters"] ∧
+    (∀ m, ∀ x ∈ Gen.raisesBefore m, x = "KeyError") := by
+  refine ⟨?_, rfl, rfl, rfl, rfl, rfl, ?_⟩
+  · intro m hm; cases m <;> first | rfl | exact absurd rfl hm
+  · intro m; cases m <;> decide
+
+/-- every `add_*` writes the container of its own kind and registers the id under the matching `ctx`, every
+    `remove_*` / `update_*` touches the same container (so ids values and containers cannot drift apart) -/
+theorem C03_table_containers :
+    Gen.Mut.all.map (fun m => (Gen.ctx m, Gen.containers m)) =
+    [ (["parameter"], ["_parameters"]), ([], []), ([], ["_parameters"]), ([], []), ([], []), ([], []), ([], []),
+      ([], []), ([], []),
+      (["variable"], ["_variables"]), ([], []), ([], ["_variables"]), ([], []), ([], []), ([], []), ([], []),
+      (["derived"], ["_derived"]), ([], []), ([], ["_derived"]),
+      (["reaction"], ["_reactions"]), ([], []), ([], ["_reactions"]),
+      (["readout"], ["_readouts"]), ([], ["_readouts"]),
+      (["surrogate", "surrogate"], ["_surrogates"]), (["surrogate"], ["_surrogates"]), ([], ["_surrogates"]),
+      (["data"], ["_data"]), ([], ["_data"]), ([], ["_data"]) ] := by decide
+
+/-- the generated `__eq__` of the dataclass compares the ids and the seven containers and NOT the cache -/
+theorem C03_table_eq_fields :
+    Gen.eqFields = ["_ids", "_variables", "_parameters", "_derived", "_readouts", "_reactions", "_surrogates",
+      "_data"] := rfl
+
 /-! ## the cache is never stale -/
 
 /-- After ANY history of mutators and queries the cache is empty or is exactly what `_create_cache` builds
@@ -73,22 +147,59 @@ theorem C03_cache_valid (h : List HOp) : CacheOK (run init h) := by
     cases o with
     | edit op => exact step_cacheOK s op hs
     | ask q => exact query_cacheOK s q hs
+    | fork => exact hs
 
 /-- Hence every query, after any history, answers exactly as a model freshly built from the current
     content (`freshAnswer` runs `createCache` on the content and answers from that). -/
-theorem C03_fresh_equiv (h : List HOp) (q : Query) :
+theorem C03_fresh_equiv (h : List HOp) (q : Query) (hq : q ≠ .eqFresh) :
     (query (run init h) q).2 = freshAnswer (run init h).content q := by
   have hc := C03_cache_valid h
   generalize run init h = s at hc
-  unfold query ensureCache freshAnswer
-  rcases hc with hn | ⟨c, h1, h2⟩
-  · rw [hn]
-    simp only
-    cases hcc : createCache s.content with
-    | ok c => simp [bind, Except.bind]
-    | error e => simp [bind, Except.bind]
-  · rw [h2, h1]
-    simp [bind, Except.bind]
+  unfold query freshAnswer
+  split
+  · exact absurd rfl hq
+  · split
+    · unfold ensureCache
+      rcases hc with hn | ⟨c, h1, h2⟩
+      · rw [hn]
+        simp only
+        cases hcc : createCache s.content with
+        | ok c => simp [bind, Except.bind]
+        | error e => simp [bind, Except.bind]
+      · rw [h2, h1]
+        simp [bind, Except.bind]
+    · rfl
+
+/-- The entry points that do not go through `_create_cache` do not look at a cache at all (so the placeholder
+    the model hands them is never read): names of variables / parameters / reactions / readouts / surrogate
+    outputs and fluxes, unused parameters, raw stoichiometries, and `get_arg_names` without the two derived flags. -/
+theorem C03_cachefree_queries (c : Content) (k1 k2 : Cache) (q : Query) (hq : q.needsCache = false) :
+    answer c k1 q = answer c k2 q := by
+  cases q with
+  | names nq => cases nq <;> rfl
+  | rawStoich x => rfl
+  | eqFresh => rfl
+  | argNames fl =>
+    simp only [Query.needsCache, Bool.or_eq_false_iff] at hq
+    simp only [answer, argNames, argNamesOf, hq.1, hq.2]
+    rfl
+  | _ => simp [Query.needsCache] at hq
+
+/-- `model == other` for a newly built `other` with the same content: after ANY history the answer is `True`,
+    whether or not a query has filled the cache — the generated `__eq__` does not compare `_cache`
+    (fact read from the dataclass fields of the current source). -/
+theorem C03_eq_fresh (h : List HOp) : (query (run init h) .eqFresh).2 = .ok (.bool true) := by
+  have : ∀ s : State, eqFresh s = true := by
+    intro s
+    unfold eqFresh
+    rw [C03_table_eq_fields]
+    rfl
+  simp only [query, this]
+
+/-- A query edits nothing: content and ids are exactly as before (only the cache may have been filled). -/
+theorem C03_query_is_pure (h : List HOp) (q : Query) :
+    (query (run init h) q).1.content = (run init h).content ∧ (query (run init h) q).1.ids = (run init h).ids :=
+  query_same _ q
 
 /-- `freshAnswer` is the shared core's query (the function C01 is about), here for the right-hand side.
     (The shared core does not model the final `args.pop(data)` of `_get_args`; without data sets the two
@@ -96,7 +207,10 @@ theorem C03_fresh_equiv (h : List HOp) (q : Query) :
 theorem C03_fresh_is_core_rhs (c : Content) (hd : c.data = []) (vals : List Rat) (t : Rat) :
     freshAnswer c (.rhs (some vals) t)
       = (Mxl.getRhsQ c (some (cycle vals 0 (omKeys c.vars))) t).map Ans.assoc := by
-  unfold freshAnswer Mxl.getRhsQ answer stateOf resolveVars rawArgs
+  have hn : (Query.rhs (some vals) t).needsCache = true := rfl
+  unfold freshAnswer
+  rw [if_pos hn]
+  unfold Mxl.getRhsQ answer stateOf resolveVars rawArgs
   cases createCache c with
   | error e => rfl
   | ok cache =>
@@ -125,6 +239,7 @@ theorem C03_ids_exact (h : List HOp) : Exact (run init h) := by
     cases o with
     | edit op => exact step_exact s op hs
     | ask q => exact exact_of_same (query_same s q) hs
+    | fork => exact hs
 
 /-- the same, as a permutation plus duplicate-freeness (all kinds of component share one name space) -/
 theorem C03_one_name_space (h : List HOp) :
